@@ -284,7 +284,7 @@ class TransportDescriptorParser:
         keyword_strings = [param for param in strings if self._is_keyword_param(param)]
         parameters = dict()
         for keyword_string in keyword_strings:
-            q = keyword_string.split('=', maxsplit=2)
+            q = keyword_string.split('=', maxsplit=1)
             if len(q) < 2:
                 raise QMI_TransportDescriptorException('Keyword parameter is not in form of foo=bar')
             k, v = q
